@@ -93,7 +93,7 @@ def _run_case(case, ctx):
     nstm = len(base.stmts)
     skip = nstm - len(p["stmts"]) - len([e for e in p["equs"] if e["pos"] == "bottom"])
     labels = [s["label"] for s in p["stmts"] if s["label"]] + [e["label"] for e in p["equs"]] + ([p["org_label"]] if p.get("org_label") else [])
-    has_abs = any(s["abs"] for s in p["stmts"])
+    has_abs = any(s["abs"] or s["kind"] == "fdblbl" for s in p["stmts"])
     has_rel = any(s["kind"] in ("rel", "lrel", "pcr") for s in p["stmts"])
 
     def report(form, sym, lines2, o2, extra=None, traits=None):
@@ -146,7 +146,15 @@ def _run_case(case, ctx):
         ok = True
         for j, (a, b) in enumerate(zip(bytes_by_stmt(base), bytes_by_stmt(o2))):
             st = p["stmts"][j - skip] if 0 <= j - skip < len(p["stmts"]) else None
-            if st is not None and st["abs"]:
+            if st is not None and st["kind"] == "fdblbl":
+                words = lambda x: [int.from_bytes(x[i:i + 2], "big") for i in range(0, len(x), 2)]
+                good = len(a) == len(b) == 2 * len(st["wordmask"]) and all(
+                    (w2 - w1) % 65536 == (D % 65536 if m else 0) for w1, w2, m in zip(words(a), words(b), st["wordmask"]))
+                if not good:
+                    report("shift", "ADDRESS-TABLE-NOT-MOVED-BY-D", lines2, o2, {"stmt": base.listing[j].rstrip(), "D": D, "base_bytes": a.hex(), "shifted_bytes": b.hex()}, {"stmt_kind": st["kind"]})
+                    ok = False
+                    break
+            elif st is not None and st["abs"]:
                 try:
                     k1, v1, d1 = decode_val(a)
                     k2, v2, d2 = decode_val(b)
